@@ -58,7 +58,7 @@ def log(*a):
 
 OVERLAYS = {
     # package dir (relative to the repository) -> list of harness files added to it
-    "internal/pfcp": ["pfcp/zz_verif_l1_test.go", "pfcp/zz_verif_l2_test.go"],
+    "internal/pfcp": ["pfcp/zz_verif_l1_test.go", "pfcp/zz_verif_l2_test.go", "pfcp/zz_verif_stress_test.go"],
     "internal/gtpv1": ["gtpv1/zz_verif_gtpu_test.go"],
     "internal/report": ["report/zz_verif_flags_test.go"],
     "internal/forwarder": ["forwarder/zz_verif_fwd_test.go", "forwarder/zz_verif_rules_test.go", "forwarder/zz_verif_export.go"],
